@@ -30,6 +30,7 @@ EXPLANATION = (
     'encoded (C16.R1); (R9/R9b) returned metadata: accessor <-> statx field table, signed statx timestamps '
     'converted without losing the sign, FileType/Permissions/MetadataInterest bits vs <linux/stat.h>. That the '
     'kernel executes a request like the system call would is not decided.'
+    ' (R5) the initialisation obligation is owed by every decoder of an operation generic over BufMut/BufMutSlice, whether or not a set_init call is present.'
 )
 NOT_DECIDED = "kernel-side semantics of each request; value conversions (timestamps etc.) for all inputs"
 ASSUMPTIONS = ["abi/sqe_table.json transcribes io_uring_enter(2) correctly", "/usr/include/linux/io_uring.h matches the targeted kernel ABI for opcodes <= 48"]
